@@ -379,7 +379,7 @@ func (i *slurpInputIter) Next() (any, bool) {
 	if i.err != nil {
 		return nil, false
 	}
-	var vs []any
+	vs := []any{} // not nil, which the update functions take for null
 	var v any
 	var ok bool
 	for {
